@@ -30,6 +30,11 @@ tail: "!" NUM
 %import .c12common (NAME, NUM)
 %ignore " "
 '''
+G3 = '''
+start: "hello" NAME+ ["!" NUM] "."
+%import c12lib (NAME, NUM)
+%ignore " "
+'''
 G2 = '''
 start: "hello" NUM+ mark
 mark: "?" | "!"
@@ -37,8 +42,8 @@ mark: "?" | "!"
 %ignore " "
 '''
 COMMON_V1 = 'NAME: /[a-z]+/\nNUM: /[0-9]+/\n'
-COMMON_V2 = 'NAME: /[a-z_]+/\nNUM: /[0-9]+/\n'
-PROBES = ['hello x', 'jello x', 'hello abc def !7', 'bye a', 'hello 12 ?', 'hello 1 2 !', 'hello', 'hello x !', 'hello a_b', 'hello x ! 7', '', 'hellox', 'byebye x']
+COMMON_V2 = 'NAME: /[b-z]+/\nNUM: /[0-9]+/\n'        # same byte length as V1: a change that stat() metadata cannot reveal
+PROBES = ['hello x .', 'hello abc !7 .', 'hello x', 'jello x', 'hello abc def !7', 'bye a', 'hello 12 ?', 'hello 1 2 !', 'hello', 'hello x !', 'hello a_b', 'hello x ! 7', '', 'hellox', 'byebye x']
 
 if P:
     import lark.lark as larkmod
@@ -82,22 +87,43 @@ if P:
         return _orig_load_grammar(*a, **kw)
     larkmod.load_grammar = _counting_load_grammar
 
+    DIR_B = os.path.join(SCRATCH, 'b')
+    os.makedirs(DIR_B)
+    LIB_A = os.path.join(SCRATCH, 'liba')
+    LIB_B = os.path.join(SCRATCH, 'libb')
+    os.makedirs(LIB_A)
+    os.makedirs(LIB_B)
+    for _d, _t in ((LIB_A, COMMON_V1), (LIB_B, COMMON_V2), (DIR_B, COMMON_V2)):
+        with open(os.path.join(_d, 'c12lib.lark' if _d != DIR_B else 'c12common.lark'), 'w') as _f:
+            _f.write(_t)
+    # configuration: (grammar, options, content of the relatively imported file, directory of the main grammar)
     CONFIGS = {
-        0: (G1, {}, COMMON_V1),
-        1: (G2, {}, COMMON_V1),
-        2: (G1, {'keep_all_tokens': True}, COMMON_V1),
-        3: (G1, {}, COMMON_V2),
-        4: (G1, {'lexer': 'basic'}, COMMON_V1),
+        0: (G1, {}, COMMON_V1, SCRATCH),
+        1: (G2, {}, COMMON_V1, SCRATCH),
+        2: (G1, {'keep_all_tokens': True}, COMMON_V1, SCRATCH),
+        3: (G1, {}, COMMON_V2, SCRATCH),                            # edited imported file (same size, same mtime)
+        4: (G1, {'lexer': 'basic'}, COMMON_V1, SCRATCH),
+        5: (G3, {'import_paths': [LIB_A]}, COMMON_V1, SCRATCH),      # same text, %import resolved through different import_paths
+        6: (G3, {'import_paths': [LIB_B]}, COMMON_V1, SCRATCH),
+        7: (G3, {'import_paths': [LIB_A], 'maybe_placeholders': False}, COMMON_V1, SCRATCH),   # an option whose non-default value is falsy
+        8: (G1, {}, COMMON_V1, DIR_B),                               # same text in another directory: the relative import finds another file
     }
+    NCONF = P.get('nconf', len(CONFIGS))
+    MTIME = 1600000000
 
     def _write_common(text):
         with open(COMMON_PATH, 'w') as f:
             f.write(text)
+        os.utime(COMMON_PATH, (MTIME, MTIME))       # environment stub: file metadata does not reveal the edit
 
     def build(cfg, cache):
-        g, opts, common = CONFIGS[cfg]
+        g, opts, common, d = CONFIGS[cfg]
         _write_common(common)
-        return Lark(g, parser='lalr', cache=cache, source_path=os.path.join(SCRATCH, 'main.lark'), **opts)
+        main = os.path.join(d, 'main.lark')
+        with open(main, 'w') as f:
+            f.write(g)
+        # Lark.open: the source path comes from the file object (it is not an option and so not part of the cache key)
+        return Lark.open(main, parser='lalr', cache=cache, **opts)
 
     def behaviour(lk):
         out = []
@@ -106,7 +132,8 @@ if P:
         return out
 
     REF = {c: behaviour(build(c, False)) for c in CONFIGS}
-    assert len({repr(v) for v in REF.values()}) == len(REF), 'configurations must be behaviourally distinct on the probes'
+    _same = [(a, b) for a in REF for b in REF if a < b and REF[a] == REF[b]]
+    assert _same in ([], [(3, 8)]), 'configurations must be behaviourally distinct on the probes (3 and 8 share their imported content): %s' % _same
     MemFS.files.clear()
     build(0, 'cache.bin')
     BASE = MemFS.files['cache.bin']
@@ -223,7 +250,7 @@ def flip(pi: int, kind: int) -> bool:
 
 def _hist_body(rec, hist):
     n = hs.pick(len(hist), 1, 3)
-    cfgs = [hs.sel(hist[k], len(CONFIGS)) for k in range(n)]
+    cfgs = [hs.sel(hist[k], NCONF) for k in range(n)]
     with hs.untraced():
         MemFS.files.clear()
         rec['key'] = ['hist', cfgs]
@@ -241,7 +268,7 @@ def hist(hist: List[int]) -> bool:
     pre: 1 <= len(hist) <= 3
     post: _
     """
-    return hs.run_path(_hist_body, (hist,), corner=lambda hist: len(hist) == 3 and hs.sel(hist[2], 5) == 4)
+    return hs.run_path(_hist_body, (hist,), corner=lambda hist: len(hist) == 3 and hs.sel(hist[2], NCONF) == 4)
 
 
 def plan(tier, seed):
@@ -266,13 +293,13 @@ def plan(tier, seed):
                            'params': {'kind': 'flip', 'positions': 'all', 'lo': part * 200, 'hi': (part + 1) * 200 if part < 31 else 10 ** 6}, 'timeout': 3000,
                            'twin': part == 0, 'bound': {'positions': 'every byte', 'kinds': [f[0] for f in FLIPS]}})
     slices.append({'id': 'hist:len<=3', 'func': 'hist', 'mode': 'realised', 'params': {'kind': 'hist'}, 'timeout': 600,
-                   'bound': {'builds': 3, 'configurations': 5}})
+                   'bound': {'builds': 3, 'configurations': 9}})
     meta = {
         'rule': 'one path per (fault kind, position) / per history; non-trivial = the file content actually differs from the valid one / the history mixes configurations',
         'technique': 'CrossHair solver-closed enumeration of fault positions and build histories, realised (pickle.load is a C extension: it realises its input anyway); '
                      'behavioural equivalence with an uncached build on a probe set; rebuild counter on load_grammar',
         'functions_encoded': ['lark.lark.Lark.__init__ (cache load / fallback / save)', 'Lark.save/_load', 'lark.load_grammar.verify_used_files', 'lark.utils.FS (stubbed)'],
-        'bounds': {'probe_inputs': len(PROBES), 'fault_positions': 'opcode boundaries (quick) / every byte (thorough)', 'history_length': 3},
+        'bounds': {'probe_inputs': len(PROBES), 'fault_positions': 'opcode boundaries (quick) / every byte (thorough)', 'history_length': 3, 'configurations': 9},
         'outside_bounds': ['multi-byte corruption', 'file systems that violate the stub contract (torn writes)', 'pickles crafted to execute code'],
         'stubs_and_assumes': ['lark logger silenced (failed cache loads log tracebacks)', 'FS replaced by an in-memory store: open(rb) returns the stored bytes or raises FileNotFoundError; open(wb) replaces the content when closed',
                               'equivalence is judged on %d probe inputs' % len(PROBES)],
